@@ -440,8 +440,12 @@ impl<W: Write> TableWriter<W> {
 		// Update metadata
 		self.update_meta_properties(&key, val);
 
-		// Flush block if it exceeds target size
-		if self.data_block.as_ref().unwrap().size_estimate() > self.opts.block_size {
+		// Flush block if it exceeds target size. An empty block is never flushed: with a
+		// block_size below the fixed per-block overhead the estimate of an empty block
+		// already exceeds the target, and a block without entries has no last key to
+		// build the index separator from.
+		let data_block = self.data_block.as_ref().unwrap();
+		if data_block.entries() > 0 && data_block.size_estimate() > self.opts.block_size {
 			self.write_data_block(&enc_key)?;
 		}
 
